@@ -135,6 +135,29 @@ func (c *Ctx) opFuncs(fn *ssa.Function) []*ssa.Function {
 				inSet[cal] = true
 				out = append(out, cal)
 			}
+			// functions handed on as values: method values (`pc.execute` passed to a transaction runner), named functions
+			for _, b := range f.Blocks {
+				for _, in := range b.Instrs {
+					var g *ssa.Function
+					if mc, ok := in.(*ssa.MakeClosure); ok {
+						if w, ok := mc.Fn.(*ssa.Function); ok {
+							g = boundTarget(w)
+						}
+					}
+					if call, ok := in.(*ssa.Call); ok {
+						for _, a := range call.Call.Args {
+							if fv, ok := a.(*ssa.Function); ok {
+								g = fv
+							}
+						}
+					}
+					if g == nil || inSet[g] || len(g.Blocks) == 0 || g.Parent() != nil || !c.inModule(g) || g.Object() == nil || g.Object().Exported() || namedAnchors[c.Key(g)] || c.EntShape().isGenerated(g) || c.FnInControl(g) {
+						continue
+					}
+					inSet[g] = true
+					out = append(out, g)
+				}
+			}
 			for _, a := range f.AnonFuncs {
 				scan(a)
 			}
